@@ -220,9 +220,43 @@ static void ensure_backend(KV const& hdr)
   }
   bo.error_notifier = [](std::string const& m) { g_notes.push_back(m); };
   bo.check_backend_singleton_instance = false;
+  bo.transit_event_buffer_initial_capacity = 2;   // the per-thread transit-event slots are re-used after two events
   g_mbw = quill::Backend::acquire_manual_backend_worker();
   g_mbw->init(bo);
   g_sink = quill::Frontend::create_or_get_sink<RecSink>("rec");
+}
+
+// a statement that is not judged but leaves a history behind it: named arguments on a LOG_BACKTRACE-level statement (stored,
+// never written) and on a statement whose sink throws; the statements judged afterwards re-use their transit-event slots
+struct ThrowSink : quill::Sink
+{
+  void write_log(MacroMetadata const*, uint64_t, std::string_view, std::string_view, std::string const&, std::string_view,
+                 LogLevel, std::string_view, std::string_view, std::vector<std::pair<std::string, std::string>> const*,
+                 std::string_view, std::string_view) override
+  {
+    throw std::runtime_error("history-sink-throws");
+  }
+  void flush_sink() override {}
+};
+static void run_history(KV const& c)
+{
+  static constexpr MacroMetadata md_bt{"hist.cpp:1", "hist", "held {ha} {hb}", nullptr, LogLevel::Backtrace, MacroMetadata::Event::Log};
+  static constexpr MacroMetadata md_thr{"hist.cpp:2", "hist", "thrown {ta} {tb}", nullptr, LogLevel::Info, MacroMetadata::Event::Log};
+  g_clock.ts = 1;
+  if (c.count("how") && c.at("how") == "bt")
+  {
+    quill::Logger* lg = quill::Frontend::create_or_get_logger("hist_bt", g_sink, PatternFormatterOptions{"%(message)"},
+                                                             quill::ClockSourceType::User, &g_clock);
+    lg->init_backtrace(2, LogLevel::None);
+    lg->template log_statement<false, false>(LogLevel::None, &md_bt, std::string{"x1"}, std::string{"x2"});
+  }
+  else
+  {
+    quill::Logger* lg = quill::Frontend::create_or_get_logger("hist_thr", quill::Frontend::create_or_get_sink<ThrowSink>("hist_thr_sink"),
+                                                             PatternFormatterOptions{"%(message)"}, quill::ClockSourceType::User, &g_clock);
+    lg->template log_statement<false, false>(LogLevel::None, &md_thr, std::string{"y1"}, std::string{"y2"});
+  }
+  g_mbw->poll();
 }
 
 static void run_e2e(KV const& c, std::FILE* out)
@@ -396,6 +430,7 @@ int main(int argc, char** argv)
     }
     if (tag == "D") run_direct(c, out);
     else if (tag == "E") { ensure_backend(hdr); run_e2e(c, out); }
+    else if (tag == "P") { ensure_backend(hdr); run_history(c); }
     std::fflush(out);
   }
   std::fclose(out);
